@@ -71,11 +71,16 @@ PROP = dict(
          "one negative weight among non-negative ones, and all weights <= 0 with at least one zero and one negative "
          "(maximum exactly 0); plus a REUSE stream (about 30 % of the cases): one VnBest / VnFirst value serves a sequence "
          "of 2-4 calls (its own output again, new weights on that output, another length), each call a case of its own; "
-         "distinct = distinct (algorithm, "
+         "plus a GENUINE-f64 stream (1 unit in 5): tenths, small decimals, thirds, mixed magnitudes, random mantissas, ties "
+         "between rounded sums, one dominant 1e15, a negative / -0.0 family; bit patterns, run on a rayon pool of ONE thread "
+         "(fixed summation order), VnBest in a child process that is killed after 4 s (its loop may not end), compared "
+         "bit-for-bit (array and move count) with the binary64 instance of the generic model, judged in exact dyadic "
+         "arithmetic with a tolerance of total/2^45; distinct = distinct (algorithm, "
          "weight type, weights, partition); non-trivial = matching lengths, at least 3 weights, at least two parts in "
          "the input, not all weights zero",
     class_names={0: "Ok, partition unchanged", 5: "Ok, at least one element moved", 1: "InputLenMismatch",
-                 2: "NegativeValues", 6: "other error", 3: "panic", 4: "hang"},
+                 2: "NegativeValues", 6: "other error", 3: "panic", 4: "hang",
+                 7: "Ok (genuine f64): exact gap not larger", 8: "Ok (genuine f64): exact gap larger, within the rounding tolerance"},
     trusted_base=[
         "axioms: none (every theorem of Properties/C14.v is closed under the global context)",
         "modelled, not verified: i64 overflow of part loads; the allocation of 1 + max id loads",
@@ -86,6 +91,11 @@ PROP = dict(
         "halves are both exact); every other operation is +, -, < on integers below 2^53",
     ],
     assumptions=[
+        "f64 reading of the property: exact arithmetic on the f64 values, gap(out) <= gap(in) + total/2^45 (accumulated "
+        "rounding); the strict exact statement is refuted (C14_vnfirst_f64_exact_gap_refuted) and termination of VnBest on "
+        "f64 weights is refuted (C14_vnbest_f64_terminates_refuted; known finding vnbest-f64-oscillation)",
+        "f64: SpecFloat SFadd/SFsub/SFdiv/SFltb/SFeqb at (53,1024) are the CPU's binary64 operations (validated bit-for-bit "
+        "on every genuine-f64 case); rayon's fold/reduce on a 1-thread pool splits the index range once, in the middle",
         "weights are non-negative integers (i64, or f64 holding integers below 2^53) whose sums do not overflow",
         "part ids of the input array are small enough for 1 + max id loads to be allocated (the harness uses 2..8 parts)",
     ],
@@ -101,7 +111,12 @@ MANIFEST = dict(
          "within 1 + sum of squared loads turns; C14_vnbest_no_panic, C14_vnfirst_total: no panic, Ok under the contract. "
          "Models are compared with the implementation on generated inputs (exact partitions and move counts, i64 and f64 "
          "weights; on errors the array must be untouched) and a checker proved equivalent to the property judges every output; "
-         "guards and comparison operators the models hard-code are re-read from the source on every run (C14_source_literals).",
+         "guards and comparison operators the models hard-code are re-read from the source on every run (C14_source_literals). "
+         "Both algorithms are also modelled over an abstract weight arithmetic and run on genuine f64 inputs bit-for-bit: the "
+         "guards survive (C14_vnbest_negative_generic), but with rounding VnBest need not terminate "
+         "(C14_vnbest_f64_terminates_refuted: it oscillates for ever on 0.2 0.8 0.9 0.1 0.1 / 1 1 0 1 0 -- confirmed on the "
+         "real code, known finding) and VnFirst can raise the exact gap by a rounding error "
+         "(C14_vnfirst_f64_exact_gap_refuted); the integer theorems stand as stated for i64 and integer-valued f64.",
     design_ref="DESIGN.md §7 C14",
     note="Trusted: Coq kernel; model<->code tie = translator (10 literals) + differential runs (4k/40k cases); itertools minmax "
          "and binary_search contracts as listed; no axioms.",
